@@ -4,6 +4,7 @@ import Driver.StreamD
 import Driver.HuffD
 import Driver.LzhD
 import Driver.VolD
+import Driver.ResD
 /-!
 # op2model — line-protocol driver for the executable model
 
@@ -19,6 +20,7 @@ def handlers : List (String → List String → Option String) :=
   handleHuff ::
   handleLzh ::
   handleVol ::
+  handleRes ::
   []
 
 def dispatch (line : String) : String :=
